@@ -690,7 +690,7 @@ func c39RunDialogs(c *mon.Ctx, respKind string, ties bool, list []c39Dlg, limit 
 
 func runC39(c *mon.Ctx) {
 	relaxGC()
-	c.Rule("EXHAUSTIVE grid N in 0..40 (thorough 0..100) x page size in 1..N+1 (861 resp. 5151 pairs, includes every exact multiple) for each server configuration: " +
+	c.Rule("EXHAUSTIVE grid N in 0..40 (thorough 0..150) x page size in 1..N+1 (861 resp. 11476 pairs, includes every exact multiple) for each server configuration: " +
 		"messages iterator through the real GetHistory builder x response kinds {messagesSlice, channelMessages, messages.messages-when-complete-else-slice, " +
 		"messages.messages-whenever-the-answer-reaches-the-end} x offset precedence variants {id, date, both}; Search builder (offset_id+add_offset) x 3 kinds; " +
 		"SearchGlobal builder (offset_rate/offset_peer/offset_id, next_rate fed back) x 2 kinds x {id, rate}; dialogs iterator through the real GetDialogs builder x " +
@@ -702,7 +702,7 @@ func runC39(c *mon.Ctx) {
 		"(users/chats present) and pass through the real TL encoder/decoder")
 	c.Assume("server variants other than server=id / server=unique-dates encode behaviours the real server may or may not have; their signatures carry the variant name")
 
-	maxN := c.N(40, 100) // thorough enumerates the larger grid completely as well
+	maxN := c.N(40, 150) // thorough enumerates the larger grid completely as well
 	var msgCfgs []c39MsgCfg
 	for _, k := range []string{"slice", "channel", "full-or-slice", "tail-full"} {
 		for _, p := range []string{"id", "date", "both"} {
